@@ -51,6 +51,16 @@ def validate(ctx, trace_path, mode, label):
         seg = ctx.segment(keep, b)
         line = keep[b - 1]
         pre = seg[-2]["post"] if len(seg) >= 2 else None
+        if line.get("a") == "Batch":
+            evs = line["evs"]
+            changed = sorted(c for c in line["post"] if not pre or pre.get(c) != line["post"][c])
+            sig = "batch:" + ",".join("%s/%s" % (e["c"], e["k"]) for e in evs) + "->" + ",".join(
+                "%s=%s" % (c, line["post"][c]["k"] if isinstance(line["post"][c], dict) else "?") for c in sorted(line["post"]))
+            ctx.violation(sig, "one account snapshot carrying the reports %s from %s left %s: not the result of applying them "
+                          "in the delivered sequence (OrderLifecycle!Reach) [%s, line %d; changed: %s]" % (
+                              json.dumps(evs), json.dumps(pre), json.dumps(line["post"]), label, b, changed),
+                          {"mode": mode, "scenario": scenario_of(seg)})
+            continue
         sig = signature(pre, line) if pre and line.get("a") != "Reset" else "unconsumed"
         desc = "order %s in state %s, event %s -> implementation state %s is not allowed by OrderLifecycle [%s, line %d]" % (
             line.get("c"), json.dumps(pre[line["c"]]) if pre else "?", json.dumps({k: line[k] for k in ("a", "k", "q", "s", "m", "ok") if k in line}),
